@@ -513,8 +513,9 @@ func c13GateScenario(w *core.W, kind, point string, order, k int, seed uint64) {
 }
 
 // scenario: k handlers are in flight (held) when Shutdown is called.
-func c13InFlightScenario(w *core.W, kind string, k int, ctxExpiry bool, seed uint64) {
-	e := newC13Env(w, kind, fmt.Sprintf("inflight/k%d/ctx%v", k, ctxExpiry), seed)
+func c13InFlightScenario(w *core.W, kind string, k int, ctxMode int, seed uint64) {
+	ctxExpiry := ctxMode > 0
+	e := newC13Env(w, kind, fmt.Sprintf("inflight/k%d/ctx%v", k, []string{"false", "true", "precancelled"}[ctxMode]), seed)
 	if !e.start() {
 		return
 	}
@@ -533,6 +534,10 @@ func c13InFlightScenario(w *core.W, kind string, k int, ctxExpiry bool, seed uin
 	if ctxExpiry {
 		ctx, cancel := context.WithTimeout(context.Background(), 30*time.Millisecond)
 		defer cancel()
+		if ctxMode == 2 {
+			cancel() // the context is already done when ShutdownContext is called: the server must still stop
+			e.ctl.Note("context.cancelled-before-call", "")
+		}
 		sd := e.shutdown("ctx", ctx)
 		err, ok := sd.wait(c13Watch)
 		if !ok {
@@ -1006,6 +1011,106 @@ func c13ReuseScenario(w *core.W, order int, seed uint64) {
 	w.NontrivialStr("reuse", fmt.Sprint(nets))
 }
 
+// scenario: a handler takes the connection over (Hijack, as zone transfers out do) and returns. The
+// server has handed it away for good: it no longer tracks it, Shutdown neither waits for it nor
+// touches it, and its new owner can keep reading from and writing to it afterwards.
+func c13HijackScenario(w *core.W, seed uint64) {
+	e := newC13Env(w, "tcp-sim", "hijack", seed)
+	defer sched.Use(nil)
+	release := make(chan struct{})
+	written := make(chan error, 1)
+	e.srv.Handler = dns.HandlerFunc(func(rw dns.ResponseWriter, req *dns.Msg) {
+		e.ctl.Note("handler.enter", fmt.Sprint(req.Id))
+		rw.Hijack()
+		go func() {
+			<-release
+			r := new(dns.Msg)
+			r.SetReply(req)
+			written <- rw.WriteMsg(r)
+		}()
+		e.ctl.Note("handler.exit", fmt.Sprint(req.Id))
+		e.exited.Add(1)
+	})
+	if !e.start() {
+		return
+	}
+	w.Eval(1)
+	rq := e.send(77)
+	deadline := time.Now().Add(c13Watch)
+	for e.exited.Load() < 1 && time.Now().Before(deadline) {
+		time.Sleep(time.Millisecond)
+	}
+	svs := e.ln.ServerConns()
+	if e.exited.Load() < 1 || len(svs) == 0 {
+		w.Inconclusive("c13-hijack-handler-not-run")
+		return
+	}
+	sv := svs[len(svs)-1]
+	// (1) the server forgets the connection once the handler has returned
+	tracked := -1
+	for deadline = time.Now().Add(2 * time.Second); time.Now().Before(deadline); time.Sleep(time.Millisecond) {
+		if _, tracked = e.srv.VerifState(); tracked == 0 {
+			break
+		}
+	}
+	if tracked != 0 {
+		e.viol("hijacked-connection-still-tracked", fmt.Sprintf("%d connection(s) still tracked by the server after the handler that hijacked it returned", tracked))
+	}
+	// the new owner waits for more input on its connection
+	type rd struct {
+		n   int
+		err error
+	}
+	got := make(chan rd, 1)
+	go func() {
+		buf := make([]byte, 8)
+		n, err := sv.Read(buf)
+		got <- rd{n, err}
+	}()
+	time.Sleep(2 * time.Millisecond)
+	// (2) Shutdown returns without the hijacked connection
+	sd := e.shutdown("s1", nil)
+	if err, ok := sd.wait(c13Watch); !ok {
+		e.viol("shutdown-does-not-return", "Shutdown waits although the only connection was hijacked and its handler has returned")
+	} else if err != nil {
+		e.viol("shutdown-error", fmt.Sprintf("Shutdown returned %v", err))
+	}
+	select {
+	case <-e.serveErr:
+	case <-time.After(c13Watch):
+		e.viol("serve-call-does-not-return", "the serve call did not return")
+	}
+	// (3) the owner's pending read was not disturbed, and its write still reaches the client
+	select {
+	case r := <-got:
+		e.viol("hijacked-connection-disturbed-by-shutdown", fmt.Sprintf("the pending read of the connection's new owner returned (n=%d, err=%v) when the server shut down", r.n, r.err))
+	case <-time.After(20 * time.Millisecond):
+	}
+	close(release)
+	select {
+	case err := <-written:
+		if err != nil {
+			e.viol("hijacked-connection-unusable", fmt.Sprintf("writing on the hijacked connection after Shutdown: %v", err))
+		}
+	case <-time.After(c13Watch):
+		e.viol("hijacked-connection-unusable", "writing on the hijacked connection blocks")
+	}
+	select {
+	case ok := <-rq.reply:
+		if !ok {
+			e.viol("hijacked-connection-unusable", "the reply written by the connection's new owner did not reach the client")
+		}
+	case <-time.After(c13Watch):
+		e.viol("hijacked-connection-unusable", "the reply written by the connection's new owner did not reach the client")
+	}
+	rq.close()
+	sv.Close()
+	w.Count("scenarios", 1)
+	w.Count("scenarios_tcp-sim", 1)
+	w.Count("hijack_scenarios", 1)
+	w.NontrivialStr("hijack", fmt.Sprint(seed%4))
+}
+
 type c13Case struct {
 	name string
 	run  func(w *core.W, seed uint64)
@@ -1033,9 +1138,12 @@ func c13Cases() []c13Case {
 		}
 		for _, k := range []int{0, 1, 2, 3} {
 			k := k
-			cs = append(cs, c13Case{fmt.Sprintf("%s inflight k%d", kind, k), func(w *core.W, s uint64) { c13InFlightScenario(w, kind, k, false, s) }})
+			cs = append(cs, c13Case{fmt.Sprintf("%s inflight k%d", kind, k), func(w *core.W, s uint64) { c13InFlightScenario(w, kind, k, 0, s) }})
+			if k <= 1 {
+				cs = append(cs, c13Case{fmt.Sprintf("%s inflight ctx-precancelled k%d", kind, k), func(w *core.W, s uint64) { c13InFlightScenario(w, kind, k, 2, s) }})
+			}
 			if k > 0 {
-				cs = append(cs, c13Case{fmt.Sprintf("%s inflight ctx k%d", kind, k), func(w *core.W, s uint64) { c13InFlightScenario(w, kind, k, true, s) }})
+				cs = append(cs, c13Case{fmt.Sprintf("%s inflight ctx k%d", kind, k), func(w *core.W, s uint64) { c13InFlightScenario(w, kind, k, 1, s) }})
 			}
 		}
 		cs = append(cs, c13Case{kind + " misuse", func(w *core.W, s uint64) { c13MisuseScenario(w, kind, s) }})
@@ -1050,6 +1158,9 @@ func c13Cases() []c13Case {
 		v := v
 		cs = append(cs, c13Case{fmt.Sprintf("failed start %d", v), func(w *core.W, s uint64) { c13FailedStartScenario(w, v, s) }})
 		cs = append(cs, c13Case{fmt.Sprintf("reuse over other transport %d", v), func(w *core.W, s uint64) { c13ReuseScenario(w, v, s) }})
+		if v == 0 {
+			cs = append(cs, c13Case{"hijack", c13HijackScenario})
+		}
 	}
 	return cs
 }
